@@ -35,6 +35,10 @@ type HCase struct {
 	// Defer[i]: the client does not react to what mutation i published (resets, query events)
 	// until the next mutation has been made and flushed as well.
 	Defer []bool `json:"defer,omitempty"`
+	// Nested: the query handlers sit in a mux that was mounted into another mux before that
+	// one was mounted to the service (resources svc.n1.n2.<...>; the harness keeps talking of
+	// svc.<...> and translates at the connection).
+	Nested bool `json:"nested,omitempty"`
 }
 
 func (c HCase) String() string { b, _ := json.Marshal(c); return string(b) }
@@ -154,10 +158,25 @@ func runHandler(c HCase) (msg string, nontrivial bool) {
 		return b
 	}
 	// ordinary resource without parameters: everything in index ia
-	s.Handle("all", typ, mk(store.QueryHandler{QueryStore: m.qs, Transformer: trans,
+	var reg interface {
+		Handle(pattern string, hf ...res.Option)
+	} = s
+	var inner *res.Mux
+	if c.Nested {
+		inner = res.NewMux("")
+		reg = inner
+	}
+	outName := func(n string) string { // svc.x -> the served name
+		if c.Nested && n != "svc" && !strings.HasPrefix(n, "svc.item.") {
+			return "svc.n1.n2." + strings.TrimPrefix(n, "svc.")
+		}
+		return n
+	}
+	inName := func(n string) string { return strings.Replace(n, "svc.n1.n2.", "svc.", 1) }
+	reg.Handle("all", typ, mk(store.QueryHandler{QueryStore: m.qs, Transformer: trans,
 		RequestHandler: func(rname string, pp map[string]string) (url.Values, error) { return storeQuery(""), nil }}))
 	// ordinary resource with a path parameter: ids whose key starts with $p
-	s.Handle("by.$p", typ, mk(store.QueryHandler{QueryStore: m.qs, Transformer: trans,
+	reg.Handle("by.$p", typ, mk(store.QueryHandler{QueryStore: m.qs, Transformer: trans,
 		RequestHandler: func(rname string, pp map[string]string) (url.Values, error) { return storeQuery(pp["p"]), nil },
 		AffectedResources: func(p res.Pattern, qc store.QueryChange) []string {
 			set := map[string]bool{}
@@ -186,7 +205,7 @@ func runHandler(c HCase) (msg string, nontrivial bool) {
 			return out
 		}}))
 	// query resource
-	s.Handle("search", typ, mk(store.QueryHandler{QueryStore: m.qs, Transformer: trans,
+	reg.Handle("search", typ, mk(store.QueryHandler{QueryStore: m.qs, Transformer: trans,
 		QueryRequestHandler: func(rname string, pp map[string]string, q url.Values) (url.Values, string, error) {
 			p := q.Get("prefix")
 			if p != "" && !validTok(p) {
@@ -195,6 +214,12 @@ func runHandler(c HCase) (msg string, nontrivial bool) {
 			return storeQuery(p), "prefix=" + p, nil
 		}}))
 	s.Handle("item.$id", res.Model, res.GetResource(func(r res.GetRequest) { r.NotFound() }))
+	if c.Nested {
+		// assembled bottom-up: inner into mid, then mid into the service
+		mid := res.NewMux("")
+		mid.Mount("n2", inner)
+		s.Mount("n1", mid)
+	}
 	conn := fakeconn.New()
 	rn, err := svc.Start(s, conn, nil)
 	if err != nil {
@@ -208,7 +233,7 @@ func runHandler(c HCase) (msg string, nontrivial bool) {
 			name, q = rid[:i], rid[i+1:]
 		}
 		payload, _ := json.Marshal(map[string]string{"query": q})
-		reply, n := rn.Send("get."+name, payload)
+		reply, n := rn.Send("get."+outName(name), payload)
 		if n != 1 {
 			return "", fmt.Errorf("get not delivered")
 		}
@@ -303,14 +328,16 @@ func runHandler(c HCase) (msg string, nontrivial bool) {
 			case e.Subject == "system.reset":
 				var p struct{ Resources []string }
 				_ = json.Unmarshal(e.Data, &p)
-				resets = append(resets, p.Resources...)
+				for _, r := range p.Resources {
+					resets = append(resets, inName(r))
+				}
 			case strings.HasPrefix(e.Subject, "event.") && strings.HasSuffix(e.Subject, ".query"):
 				var p struct{ Subject string }
 				_ = json.Unmarshal(e.Data, &p)
-				rname := strings.TrimSuffix(strings.TrimPrefix(e.Subject, "event."), ".query")
+				rname := inName(strings.TrimSuffix(strings.TrimPrefix(e.Subject, "event."), ".query"))
 				queryEvents[rname] = append(queryEvents[rname], p.Subject)
 			case strings.HasPrefix(e.Subject, "event."):
-				rest := strings.TrimPrefix(e.Subject, "event.")
+				rest := inName(strings.TrimPrefix(e.Subject, "event."))
 				j := strings.LastIndexByte(rest, '.')
 				events[rest[:j]] = append(events[rest[:j]], e)
 			}
@@ -426,6 +453,7 @@ func TestC14Handler(t *testing.T) {
 			c.During = append(c.During, d)
 			c.Defer = append(c.Defer, rapid.IntRange(0, 3).Draw(rt, "defer") == 0)
 		}
+		c.Nested = rapid.IntRange(0, 2).Draw(rt, "nested") == 0
 		msg, nt := runHandler(c)
 		ev.Case(nt, evid.Hash("handler", c.String()), "handler")
 		if msg != "" {
